@@ -11,8 +11,8 @@ CONSTANTS
   TypeOf <- MCTypeOf2
   RootTypes <- MCRoot
   Edits <- MCEditsQ
-  HelperToks <- MCHelpers
-  ImportToks <- MCImportsDev
+  HelperToks <- MCHelpersQ
+  ImportToks <- MCImportsQ3
   CmtToks <- MCCmt
   NeverPruned <- MCNever
   Cfgs <- MCCfgs
